@@ -59,6 +59,25 @@ def job(args):
         if bad and not r.violations:
             r.violations.append(dict(signature="c01-final-memory", what="%s 1:%d: %s" % (cfg["memtype"], cfg["nphases"], bad), replay=tag))
         r.coverage["final_words_checked"] = cs.get("final_checked", 0)
+        # the DFI stream the real controller produced, against the hypothesis of C19.simphy_refines_abstract_dram (cycLegal,
+        # evaluated by the driver): the PHY/DRAM model theorem applies to the traces this property explores
+        if cfg.get("rankbits", 0) == 0:
+            nph = cfg["nphases"]
+            al = ["%d %d %d %d %d %d %d %d 8 0 0" % (nph, 1 << cfg["bankbits"], cfg["rowbits"], cfg["colbits"], corelib.BURST_MODEL[cfg["memtype"]],
+                                                     cfg["dfi_databits"], cfg["write_latency"], cfg["read_latency"]),
+                  " ".join(["1 1 1 1 0 0 0 0"] * nph)]
+            for o in cs["obs"]:
+                f = o.split()[4 * nm:]
+                al.append(" ".join("%s %s %s %s %s %s 0 0" % (f[8 * p], f[8 * p + 4], f[8 * p + 3], f[8 * p + 5], f[8 * p + 1], f[8 * p + 2]) for p in range(nph)))
+            ao = core.run_driver("adram", al)
+            wf = ao[0].strip() == "cfg wf=1"
+            flags = [x.split()[2] for x in ao[2:]]
+            nlegal = next((i for i, x in enumerate(flags) if x != "1"), len(flags))
+            r.coverage["dfi_cycles_meeting_C19_hypothesis"] = nlegal if wf else 0
+            r.coverage["dfi_traces_meeting_C19_hypothesis_completely"] = int(wf and nlegal == len(flags))
+            if wf and nlegal < len(flags) and not r.violations:
+                r.violations.append(dict(signature="c01-dfi-outside-dram-contract", what="%s 1:%d, %d ports: the controller's DFI stream leaves the contract of the DRAM model at cycle %d (two commands of a kind / for one bank in a cycle, an access to a closed bank, an ACTIVATE of an open bank, or a PRECHARGE / ACTIVATE while a write burst is on its way)"
+                                         % (cfg["memtype"], cfg["nphases"], nm, nlegal), replay=dict(tag, cycle=nlegal, dfi=[x.split()[4 * nm:] for x in cs["obs"][max(0, nlegal - 10):nlegal + 1]])))
     if prop == "C05":
         B = latency_bound(cfg)
         # offer -> accept: every other master may be served once on the same bank before this one (round-robin): Bound scales with
